@@ -81,6 +81,7 @@ class C13(Prop):
             kind, ns = a["kind"], a["ns"] == "1"
             cfg = {k: (None if a.get(k, "-") == "-" else int(a[k])) for k in ("cmin", "cstart", "cmax")}
             attached = 0
+            last_data = None
             forced = set()
             for i in range(1, len(cops)):
                 op, g = cops[i], kv(cgo[i])
@@ -105,6 +106,15 @@ class C13(Prop):
                 if bad:
                     out.append(viol(bad, cops, cgo, upto=i))
                     break
+                if op.startswith("fan.restart") and cgo[i].startswith("ok") and not forced and attached:
+                    # limits after the restart = limits of the last measured curve (on a fresh object: no earlier start PWM)
+                    es, em = expected_limits(last_data)
+                    if cfg["cmax"] is None and int(g["max"]) != em:
+                        out.append(viol(f"after a restart (save, load, attach) maxPwm is {g['max']}, the measured curve says {em}", cops, cgo, upto=i))
+                        break
+                    if cfg["cstart"] is None and int(g["start"]) != es:
+                        out.append(viol(f"after a restart (save, load, attach) startPwm is {g['start']}, the measured curve says {es}", cops, cgo, upto=i))
+                        break
                 if op.startswith("fan.attach"):
                     data = parse_float_map(kv(op)["data"])
                     res = cgo[i].split()[0]
@@ -115,6 +125,8 @@ class C13(Prop):
                             break
                         continue
                     attached += 1
+                    if res != "err":
+                        last_data = data
                     if forced:
                         continue
                     es, em = expected_limits(data)
